@@ -106,6 +106,20 @@ func RunReplays(repo, root string, jobs []ReplayJob, race bool, timeout time.Dur
 		if err != nil {
 			return nil, "", err
 		}
+		// *_replayonly.go files define native replacements for renamed functions: only with a rename request
+		withRename := false
+		for _, j := range byDir[d] {
+			if len(j.Rename) > 0 {
+				withRename = true
+			}
+		}
+		if !withRename {
+			for v := range ov {
+				if strings.HasSuffix(v, "_replayonly.go") {
+					delete(ov, v)
+				}
+			}
+		}
 		replace := map[string]string{filepath.Join(goroot, "src/math/rand/rand.go"): randPath}
 		var entries []string
 		pkgName := ""
